@@ -11,7 +11,7 @@ package ports
 //@ interface StatsCollector.GetConnectionStats
 //@   ensures res != nil
 //@   ensures forall k string :: res[k] >= 0
-//@   ensures forall k string :: res[k] == connSnap[k]
+//@   defines forall k string :: res[k] == connSnap[k]
 
 //@ interface StatsCollector.RecordConnection
 //@   modifies ghost(endpoint).gauge
